@@ -299,13 +299,19 @@ def build_odf(sc):
 
 
 # ---- EPUB ----
+def iri(path):
+    """IRI reference for a package path (EPUB manifest / XHTML): characters that are reserved in URLs are percent-encoded
+    (space, %, #, ?), everything else -- '+', non-ASCII -- stays as it is."""
+    return "".join("%{:02X}".format(ord(ch)) if ch in ' %#?"<>' else ch for ch in path)
+
+
 def build_epub(sc, opf="OEBPS/content.opf"):
     opf_dir = opf.rsplit("/", 1)[0] if "/" in opf else ""
     items, spine, files = [], [], {}
     k = 0
     for n, anchors in enumerate(sc.units, start=1):
         ch = (opf_dir + "/" if opf_dir else "") + f"ch{n}.xhtml"
-        imgs = "".join(f'<img src="{ref("relative", opf_dir, a.media) if a.kind != "external" else "http://example.invalid/x.png"}" alt="d"/>' for a in anchors)
+        imgs = "".join(f'<img src="{iri(ref("relative", opf_dir, a.media)) if a.kind != "external" else "http://example.invalid/x.png"}" alt="d"/>' for a in anchors)
         files[ch] = f'<?xml version="1.0"?><html xmlns="http://www.w3.org/1999/xhtml"><head><title>C{n}</title></head><body><p>chapter {n}</p>{imgs}</body></html>'
         items.append(f'<item id="ch{n}" href="ch{n}.xhtml" media-type="application/xhtml+xml"/>')
         spine.append(f'<itemref idref="ch{n}"/>')
@@ -314,7 +320,7 @@ def build_epub(sc, opf="OEBPS/content.opf"):
                 continue
             k += 1
             ext = a.media.rsplit(".", 1)[-1]
-            items.append(f'<item id="img{k}" href="{ref(a.style, opf_dir, a.media)}" media-type="{CT.get(ext, "image/" + ext)}"/>')
+            items.append(f'<item id="img{k}" href="{iri(ref(a.style, opf_dir, a.media))}" media-type="{CT.get(ext, "image/" + ext)}"/>')
     files[opf] = (f'<?xml version="1.0"?><package xmlns="http://www.idpf.org/2007/opf" version="3.0"><metadata xmlns:dc="http://purl.org/dc/elements/1.1/">'
                   f'<dc:title>t</dc:title></metadata><manifest>{"".join(items)}</manifest><spine>{"".join(spine)}</spine></package>')
     files["META-INF/container.xml"] = (f'<?xml version="1.0"?><container version="1.0" xmlns="urn:oasis:names:tc:opendocument:xmlns:container"><rootfiles>'
@@ -960,9 +966,30 @@ def witness(kind, fmt):
         sc = Scenario(fmt, [[Anchor(f"{md}/a.png")], [Anchor(f"{md}/a.png", "relative", "dangling")], [Anchor(f"{md}/b.gif")]],
                       {f"{md}/a.png": A, f"{md}/b.gif": B}, note="the picture on unit 2 uses an r:embed id that only the relationship part of unit 1 defines")
         return first_failure([sc], ("no-foreign", "bytes", "unit", "numbering") if fmt != "pptx" else ("no-foreign", "bytes", "unit"))
+    if kind in ("special-names", "percent-names"):
+        # part names with characters that are ordinary in a ZIP member name but special in a reference: '+' and ',' are literal
+        # everywhere; space, '%' and '#' must be percent-encoded in an IRI reference (EPUB) and decoded by the reader
+        plain = ["fig+1.png", "a,b(1).gif", "bild-\u00e4.png"]
+        pct = ["my pic.png", "100%.gif", "a#b.png"]
+        names = pct if kind == "percent-names" else (plain + (pct if fmt == "epub" and False else []))
+        media, anchors = {}, []
+        for k, nm in enumerate(names, start=1):
+            part = f"{md}/{nm}"
+            media[part] = _img(k, nm.rsplit(".", 1)[-1])
+            anchors.append(Anchor(part))
+        sc = Scenario(fmt, [anchors], media, note="part names with characters that are special in references")
+        return first_failure([sc], ("resolution", "bytes"))
     if kind == "odf-dot-href":
         return first_failure([simple(fmt, ["dot"], 1, 1)], ("resolution",))
     if kind == "resolution":
+        if fmt in ("docx", "pptx", "xlsx", "epub"):
+            r0 = witness("special-names", fmt)
+            if r0:
+                return r0
+        if fmt == "epub":
+            r0 = witness("percent-names", fmt)
+            if r0:
+                return r0
         scs = [simple(fmt, [st], 1 if fmt in ("docx", "odt") else 2, 2) for st in (("relative", "parent", "absolute", "dot") if fmt not in ("odt", "odp", "ods", "odg") else ("relative", "dot"))]
         if fmt in ("docx", "pptx", "epub"):
             # media part in a sub-directory of the usual media directory, and a decoy with the same base name directly in it
@@ -1088,6 +1115,8 @@ def exclusion_sweep(kind, fmt):
     if kind == "order":
         return first_failure(gen_scenarios(fmt, 7, 12, styles=("relative",), kinds=("embedded",), share=False, max_units=1 if fmt == "epub" else 3),
                              ("resolution", "bytes"), dedup=fmt in ("odt", "odg"))
+    if kind == "percent-names":
+        return witness("special-names", fmt) or first_failure(gen_scenarios(fmt, 10, 12, styles=("relative", "parent", "absolute", "dot"), kinds=("embedded", "missing")), ("resolution", "bytes"))
     if kind in ("slide-target", "drawing-dir", "sheet-order"):
         return first_failure(gen_scenarios(fmt, 9, 12, styles=("relative", "absolute"), kinds=("embedded", "missing")), ("resolution", "bytes", "unit"))
     if kind == "odf-dot-href":
